@@ -18,9 +18,25 @@ def blake(digest_size: int):
     return h
 
 
+def _big_stack():
+    import resource
+
+    soft, hard = resource.getrlimit(resource.RLIMIT_STACK)
+    want = 4 * 1024 ** 3
+    if hard != resource.RLIM_INFINITY:
+        want = min(want, hard)
+    try:
+        resource.setrlimit(resource.RLIMIT_STACK, (want, hard))
+    except (ValueError, OSError):
+        pass
+
+
 class Driver:
     def __init__(self):
-        self.p = subprocess.Popen([DRIVER], stdin=subprocess.PIPE, stdout=subprocess.PIPE, text=True, bufsize=1)
+        # the extracted functions are not tail recursive (they are the proved definitions, untouched): a long history or a
+        # large rewritten tree needs more than the default 8 MB of system stack (a thorough C09 case of 34 kB overflowed it)
+        self.p = subprocess.Popen([DRIVER], stdin=subprocess.PIPE, stdout=subprocess.PIPE, text=True, bufsize=1,
+                                  preexec_fn=_big_stack)
         self.table = {}  # preimage -> digest, everything asked since the last reset
 
     def reset(self):
